@@ -105,7 +105,7 @@ Proof. intros H. unfold run. rewrite construct_eq by exact H. cbn [cb_of]. apply
 
 (** ---- consequences ---- *)
 Section Facts.
-  Variables (f1 f2 ce : bool) (inputs : list (cbeh * option outcome)) (ops : list op).
+  Variables (f1 f2 ce : bool) (inputs : list input) (ops : list op).
   Hypothesis Hne : inputs <> [].
   Let s := run (KList f1 f2 ce) inputs ops.
   Let n := length inputs.
@@ -187,7 +187,7 @@ Proof.
 Qed.
 
 Section FactsGather.
-  Variables (ce : bool) (inputs : list (cbeh * option outcome)) (ops : list op).
+  Variables (ce : bool) (inputs : list input) (ops : list op).
   Hypothesis Hne : inputs <> [].
   Let s := run (KGather ce) inputs ops.
 
